@@ -57,3 +57,8 @@ func Verif_C06_H5_VolatileReferences() {
 		vnd.Cover("h5-not-the-newest-block")
 	}
 }
+
+// Verif_C06_H6_PersistentReferences: the persistent block list as the index's reference
+// resolver: the finalizer's epoch bookkeeping decides which entries PopFront invalidates
+// ("releasing a block removes exactly the entries that point into it").
+func Verif_C06_H6_PersistentReferences() { verifScenarioPBLFinalizer() }
